@@ -209,7 +209,8 @@ def fd_check(kind, p, box, h=1e-6):
 # ----------------------------------------------------------------------------
 
 FAMILIES = ["nonbonded", "bond", "angle", "dihedral", "mixed", "mixed-angle",
-            "dihedral-periodic", "mixed-order", "mixed-order"]
+            "dihedral-periodic", "mixed-order", "mixed-order", "small-box",
+            "small-box"]
 
 
 def rand_unit(r):
@@ -254,7 +255,20 @@ class FGen:
         c["decimals"] = int(self.ch([4, 5, 6]))
         has_nb = family in ("nonbonded", "mixed", "mixed-angle")
         periodic_of = {}          # interaction name -> periodic spline
-        if family == "mixed-order":
+        c["sub"] = None
+        small = family == "small-box"
+        if small:
+            # box edges only 2.3..3.2 times the largest bond length: chains
+            # span more than half the box while every single bond is shorter
+            # than half an edge; coordinates are wrapped into the cell
+            c["sub"] = sub = self.ch(["bond", "angle", "dihedral", "mixed", "mixed"])
+            kinds = {"bond": ["bond"], "angle": ["angle"], "dihedral": ["dihedral"],
+                     "mixed": ["bond", "dihedral"] +
+                     (["angle"] if r.rand() < 0.5 else [])}[sub]
+            has_nb = sub == "mixed" and r.rand() < 0.3
+            chain = int(self.ch([4, 5]))
+            nper = 0
+        elif family == "mixed-order":
             # 2..4 interactions in random order, 0..2 of them periodic
             # dihedrals at any position of the options file
             nper = int(self.ch([0, 1, 1, 1, 2, 2]))
@@ -284,6 +298,8 @@ class FGen:
         if family == "mixed-order":
             target = int(r.randint(60, 101))     # enough samples per interval
         nmol = max(2, target // chain)
+        if small:
+            nmol = int(r.randint(3, 7))
         if family == "nonbonded":
             nmol = max(20, nmol)
         c["chain"], c["nmol"] = chain, nmol
@@ -291,6 +307,16 @@ class FGen:
         L = (nbeads / r.uniform(3.0, 9.0)) ** (1 / 3.0)
         L = max(L, 2.4)
         box = np.round(np.array([L * r.uniform(0.9, 1.3) for _ in range(3)]), 3)
+        c["bond_default"] = [0.12, 0.3]
+        if small:
+            bmax = 0.5
+            c["bond_default"] = [0.42, bmax]
+            c["angle_default"] = [1.8, 2.7]      # stretched chains
+            box = np.round(np.array([bmax * min(r.uniform(2.3, 3.2),
+                                                r.uniform(2.3, 3.2))
+                                     for _ in range(3)]), 3)
+        # coordinates wrapped into the cell in the trajectory file
+        c["wrap"] = bool(small or r.rand() < 0.25)
         c["box"] = [float(b) for b in box]
         half = 0.5 * box.min()
         # bead types: nonbonded family may use two types (cross interaction)
@@ -299,7 +325,12 @@ class FGen:
         if has_nb:
             st = self.ch([0.02, 0.04, 0.05, 0.1, 0.2])
             lo = round(self.ch([0.2, 0.24, 0.25, 0.3]), 3)
-            kmax = int(math.floor((min(half, 1.2) - lo) / st + 1e-9))
+            if small:       # cutoff below half the box
+                st = self.ch([0.04, 0.05, 0.1])
+                half_nb = 0.95 * half
+            else:
+                half_nb = half
+            kmax = int(math.floor((min(half_nb, 1.2) - lo) / st + 1e-9))
             k = int(r.randint(3, max(4, min(kmax, 10)) + 1))
             k = min(k, kmax)
             cross = family == "nonbonded" and r.rand() < 0.3
@@ -315,7 +346,12 @@ class FGen:
         for kind in kinds:
             ndone[kind] = ndone.get(kind, 0) + 1
             periodic = kind == "dihedral" and perflags.pop()
-            if kind == "bond":
+            if kind == "bond" and small:
+                st = self.ch([0.02, 0.04])
+                lo = round(self.ch([0.34, 0.36]), 3)
+                k = int(r.randint(3, int(math.floor((0.5 - lo) / st + 1e-9)) + 1))
+                mx = round(lo + k * st, 6)
+            elif kind == "bond":
                 st = self.ch([0.02, 0.04, 0.05, 0.1])
                 lo = round(self.ch([0.1, 0.12, 0.15, 0.2]), 3)
                 k = int(r.randint(3, 8))
@@ -326,7 +362,7 @@ class FGen:
             elif kind == "angle":
                 st = self.ch([0.1, 0.2, 0.25, 0.4])
                 lo = round(self.ch([0.6, 0.8, 1.0, 1.2]), 3)
-                k = int(r.randint(3, 9))
+                k = int(r.randint(3, 7 if small else 9))
                 k = min(k, int((2.7 - lo) / st))
                 mx = round(lo + k * st, 6)
             elif periodic:
@@ -339,7 +375,9 @@ class FGen:
             else:
                 st = self.ch([0.2, 0.25, 0.5, 1.0])
                 lo = round(self.ch([-3.0, -2.5, -2.0, -1.0, 0.0]), 3)
-                k = int(r.randint(3, 11))
+                if small:
+                    st = self.ch([0.5, 1.0])
+                k = int(r.randint(3, 7 if small else 11))
                 k = max(2, min(k, int((3.0 - lo) / st + 1e-9)))
                 mx = round(lo + k * st, 6)
             inter.append({"class": "bonded", "kind": kind,
@@ -406,7 +444,7 @@ class FGen:
             else:
                 per_frame = nmol * len(tup[it["name"]])
             need = max(need, int(math.ceil(2.2 * MIN_SAMPLES * nint / per_frame)))
-        c["fpb"] = int(min(12, max(need, int(r.randint(1, 5)))))
+        c["fpb"] = int(min(40 if small else 12, max(need, int(r.randint(1, 5)))))
         c["extra_frames"] = int(self.ch([0, 0, 0, 1])) if c["fpb"] > 1 else 0
         nframes = c["fpb"] if c["replicate"] else c["fpb"] * c["nblocks"]
         frames = []
@@ -483,11 +521,12 @@ class FGen:
                     p0 = r.uniform(0, 1, size=3) * box
                 pts = [p0]
                 for b in range(1, chain):
-                    bl = draw("bond", b, lambda: r.uniform(0.12, 0.3))
+                    bl = draw("bond", b, lambda: r.uniform(*c["bond_default"]))
                     if b == 1:
                         pts.append(pts[0] + rand_unit(r) * bl)
                         continue
-                    th = draw("angle", b, lambda: r.uniform(0.9, 2.4))
+                    th = draw("angle", b, lambda: r.uniform(
+                        *(c.get("angle_default") or [0.9, 2.4])))
                     ph = draw("dihedral", b, lambda: r.uniform(-3.1, 3.1)) \
                         if b >= 3 else r.uniform(-3.1, 3.1)
                     pts.append(place_next(r, pts[b - 3] if b >= 3 else None,
@@ -625,7 +664,10 @@ def fm_options_xml(c):
     return "\n".join(out) + "\n"
 
 
-def fm_forces(c, box, pos):
+NOBOX = np.array([1e9, 1e9, 1e9])
+
+
+def fm_forces(c, box, pos, upos=None):
     """reference forces (kJ/mol/nm) from the generating functions, plus the
     sampled values per interaction (for the sampling rule) and the smallest
     distance of a non-bonded pair to the cutoff/core"""
@@ -634,8 +676,11 @@ def fm_forces(c, box, pos):
     types = bead_types(c)
     chain = c["chain"]
     samples = {}
-    info = {"below_min": 0, "near_cut": 1e9, "fd_worst": 0.0}
+    info = {"below_min": 0, "near_cut": 1e9, "fd_worst": 0.0, "dih": 0,
+            "dih_far": 0, "bond_max_over_half_edge": 0.0}
     molof = np.arange(n) // chain
+    # bonded terms: from the unwrapped chains, without any image convention
+    bpos, bbox = (pos, box) if upos is None else (upos, NOBOX)
     for it in c["interactions"]:
         f = func_of(it)
         vals = []
@@ -670,15 +715,25 @@ def fm_forces(c, box, pos):
             for m in range(c["nmol"]):
                 for t in c["tuples"][it["name"]]:
                     idx = [m * chain + k for k in t]
-                    p = pos[idx]
-                    v = ic_value(it["kind"], p, box)
+                    p = bpos[idx]
+                    v = ic_value(it["kind"], p, bbox)
                     g = float(f(v))
-                    G = ic_grad(it["kind"], p, box)
+                    G = ic_grad(it["kind"], p, bbox)
+                    if upos is not None:
+                        for a_ in range(len(p) - 1):
+                            info["bond_max_over_half_edge"] = max(
+                                info["bond_max_over_half_edge"], float(
+                                    (np.abs(p[a_ + 1] - p[a_]) / (0.5 * box)).max()))
+                        if it["kind"] == "dihedral":
+                            info["dih"] += 1
+                            if (np.abs(p[2] - p[0]) > 0.5 * box).any() or \
+                                    (np.abs(p[3] - p[1]) > 0.5 * box).any():
+                                info["dih_far"] += 1
                     for k, ii in enumerate(idx):
                         F[ii] += g * G[k]
                     vals.append(v)
                     if m == 0:
-                        w, gm = fd_check(it["kind"], p, box)
+                        w, gm = fd_check(it["kind"], p, bbox)
                         info["fd_worst"] = max(info["fd_worst"], w / max(gm, 1.0))
         samples[it["name"]] = np.array(vals)
     return F, samples, info
@@ -708,20 +763,31 @@ def build_fmatch_case(c):
     box = np.array(c["box"])
     d = c["decimals"]
     txtpos, parsed = [], []
+    unwrapped = []
     for pos in c["frames_pos"]:
         pos = frame_order(c, pos)
+        nimg = np.zeros_like(pos)
+        if c.get("wrap"):
+            # every bead individually into the cell; the image numbers are
+            # kept so that the oracle works on the unwrapped chains
+            nimg = np.floor(pos / box)
+            pos = pos - nimg * box
         t = [["%.*f" % (d, v * 10) for v in p] for p in pos]
         txtpos.append(t)
         parsed.append(np.array([[float(v) * 0.1 for v in p] for p in t]))
+        unwrapped.append(parsed[-1] + nimg * box if c.get("wrap") else None)
     forces, samples, infos = [], [], []
-    for pos in parsed:
-        F, s, info = fm_forces(c, box, pos)
+    for pos, upos in zip(parsed, unwrapped):
+        F, s, info = fm_forces(c, box, pos, upos)
         forces.append(F)
         samples.append(s)
         infos.append(info)
     c["below_min"] = sum(i["below_min"] for i in infos)
     c["near_cut"] = min(i["near_cut"] for i in infos)
     c["fd_worst"] = max(i["fd_worst"] for i in infos)
+    c["dih_total"] = sum(i["dih"] for i in infos)
+    c["dih_far"] = sum(i["dih_far"] for i in infos)
+    c["bond_max_over_half_edge"] = max(i["bond_max_over_half_edge"] for i in infos)
     # sampling rule, per complete block and spline interval
     fpb = c["fpb"]
     under = []
@@ -812,6 +878,8 @@ def judge_fmatch(c, wd):
     """-> list of (key, what, detail), dict of table errors"""
     fails, errs = [], {}
     fam = c["family"]
+    if c.get("sub"):
+        fam = "%s/%s" % (fam, c["sub"])
     ls = "constrained" if c["constrained"] else "plain"
     got = {}
     for it in c["interactions"]:
@@ -928,7 +996,7 @@ def fm_witness(c, files, cmd):
                            "chain", "nmol", "tuples", "min_samples_per_interval",
                            "cseed")}
     for k in ("trj_force", "junk_before", "junk_after", "too_few",
-              "bonded_order", "dist_opt"):
+              "bonded_order", "dist_opt", "sub", "wrap"):
         w[k] = c.get(k)
     w["interactions"] = c["interactions"]
     w["cmd"] = " ".join(["csg_fmatch"] + cmd[1:])
@@ -955,7 +1023,8 @@ def fmatch_worker(a):
                 cnt("generator_retries")
                 continue
             c = build_fmatch_case(c)
-            if c["undersampled"] or c["below_min"] or c["near_cut"] < 1e-7:
+            if c["undersampled"] or c["below_min"] or c["near_cut"] < 1e-7 \
+                    or c["bond_max_over_half_edge"] > 0.98:
                 cnt("generator_retries")
                 last = c
                 c = None
@@ -1007,6 +1076,13 @@ def fmatch_worker(a):
             cnt("cases_trj_force")
         if c["junk_before"] or c["junk_after"]:
             cnt("cases_first_frame_nframes")
+        if c.get("wrap"):
+            cnt("cases_coordinates_wrapped")
+        if family == "small-box":
+            cnt("small_box/dihedrals", c["dih_total"])
+            cnt("small_box/dihedrals_r13_or_r24_beyond_half_edge", c["dih_far"])
+            cnt("small_box/cases_with_nonbonded",
+                int(any(it["class"] == "pair" for it in c["interactions"])))
         if family == "mixed-order":
             bonded = [it for it in c["interactions"] if it["class"] == "bonded"]
             nper = sum(1 for it in bonded if it.get("periodic"))
@@ -1031,7 +1107,8 @@ def fmatch_worker(a):
             shutil.rmtree(wd, ignore_errors=True)
             continue
         fam = "fmatch/%s/%s/%dblock%s" % (
-            family, "constrained" if c["constrained"] else "plain",
+            family + ("/" + c["sub"] if c.get("sub") else ""),
+            "constrained" if c["constrained"] else "plain",
             c["nblocks"], "-replicated" if c["replicate"] else "")
         fams[fam] = fams.get(fam, 0) + 1
         evals += 1
